@@ -101,6 +101,30 @@ def tie_cases(draw):
     return case
 
 
+@st.composite
+def mirrored_cases(draw):
+    """Inputs made of two (or three) value-identical halves under different names: the sub-problems of a recursive or memoising
+    algorithm repeat with other names, so a result keyed by values instead of names shows as a lost or duplicated name."""
+    alg = draw(st.sampled_from(["rnp", "rnp", "rnp", "snp", "ckk", "cg", "kk", "greedy", "multifit", "cbldm", "dp", "bc", "ffd", "threequarters"]))
+    h = draw(st.sampled_from([3, 4, 5, 5, 5]))
+    base = draw(st.lists(st.integers(1, draw(st.sampled_from([4, 9, 30]))), min_size=h, max_size=h))
+    values = base + list(draw(st.permutations(base)))
+    if alg in sut.PARTITIONERS:
+        k = 2 if alg == "cbldm" else draw(st.sampled_from([4, 4, 5] if alg == "rnp" else [2, 3, 4, 4, 5]))
+        if alg in ("dp", "cg") and k > 3:
+            k = 3
+        values = values[:cases.max_items(alg, k)]
+        case = {"alg": alg, "values": values, "numbins": k}
+        if alg == "cg":
+            case["opts"] = {"objective": draw(st.sampled_from(S.CG_OBJECTIVES)), "switches": [1, 1, 0, 1]}
+        elif alg == "dp":
+            case["opts"] = {"objective": "diff"}
+    else:
+        case = {"alg": alg, "values": values, "binsize": max(values) * draw(st.integers(1, 3)) + draw(st.integers(0, 5))}
+    case.update(pres="list", nseed=draw(st.integers(0, 5)), profile="mirrored")
+    return case
+
+
 def valid(case):
     alg = case.get("alg")
     if alg in sut.PARTITIONERS:
@@ -123,6 +147,9 @@ def legs(tier):
         Leg("random", evaluate, rule, strategy=random_cases(), n_quick=3500, n_thorough=70000, valid=valid, floor=0.3),
         Leg("ties", evaluate, "hypothesis: inputs drawn from 2-3 distinct values (many ties); same oracle and rule",
             strategy=tie_cases(), n_quick=1200, n_thorough=20000, valid=valid, floor=0.3),
+        Leg("mirrored", evaluate, "hypothesis: inputs made of two value-identical halves (6-10 items) for the recursive / memoising algorithms "
+            "(rnp, snp, ckk, cg, dp, bin completion ...) and some heuristics; same oracle and rule",
+            strategy=mirrored_cases(), n_quick=900, n_thorough=18000, valid=valid, floor=0.3),
     ]
 
 
